@@ -37,7 +37,7 @@ COMPONENTS = {
 def tier_config(tier):
     if tier == 'thorough':
         return {'runs': 120000, 'wall': 780, 'det_probe': 12}
-    return {'runs': 6000, 'wall': 100, 'det_probe': 6}
+    return {'runs': 30000, 'wall': 150, 'det_probe': 6}
 
 
 # ------------------------------------------------------------------ faults
